@@ -4,6 +4,7 @@ import Driver.C02
 import Driver.C04
 import Driver.C05
 import Driver.C10
+import Driver.C11
 import Driver.C13
 import Driver.C15
 import Driver.C07
@@ -27,6 +28,7 @@ structure DState where
 
 def handlers : List Handler := [
   Driver.C04.handle,
+  Driver.C11.handle,
   Driver.C13.handle,
   Driver.C15.handle,
   Driver.C09.handle,
